@@ -51,7 +51,16 @@ def isWs (c : Char) : Bool := c == ' ' || c == '\t' || c == '\n' || c == '\r' ||
 
 def stripWs (e : List Char) : List Char := ((e.dropWhile isWs).reverse.dropWhile isWs).reverse
 
-/-- `ast.literal_eval` on an element text: surrounding white space is ignored -/
-def leImpl : LitEval := fun e => leCore (stripWs e)
+/-- an indented first line: after `lstrip(" \t")` the text starts with blank lines followed by an indented
+expression (`"\n\t'x'"`), which the parser rejects with IndentationError (a SyntaxError) -/
+def indentedStart (e : List Char) : Bool :=
+  let e1 := e.dropWhile (fun c => c == ' ' || c == '\t')
+  let w := e1.takeWhile isWs
+  let lastLine := (w.reverse.takeWhile (fun c => !(c == '\n' || c == '\r'))).reverse
+  (w.any (fun c => c == '\n' || c == '\r')) && !lastLine.isEmpty && (e1.dropWhile isWs).length > 0
+
+/-- `ast.literal_eval` on an element text: leading blanks and tabs are stripped, blank lines and trailing
+white space are ignored by the parser, an indented first line is an error -/
+def leImpl : LitEval := fun e => if indentedStart e then none else leCore (stripWs e)
 
 end Path
